@@ -190,7 +190,9 @@ def rule_pairs(ctx, n):
         if rng.random() < 0.35:
             # larger elections with few distinct ballots: high multiplicities, several rounds, supporters running out of money
             case = core.gen_big_election(rng, btypes=("app", "app", "card"), m=(4, 8), n=(5, 10), distinct=3)
-        cfg = rulegen.gen_rule_cfg(rng, case, rules=("mes", "mes", "phragmen", "greedy", "maxw"), allow_refuse=False)
+        cfg = rulegen.gen_rule_cfg(rng, case, rules=("mes", "mes", "phragmen", "phragmen", "greedy", "maxw"), allow_refuse=False)
+        if cfg["rule"] in ("phragmen", "mes") and len(case.projects) <= 5 and rng.random() < 0.5:
+            cfg["res"] = False  # the tie branches copy the voter records: multiplicities must survive the copy
         if not cfg["res"] and len(case.projects) > 5:
             cfg["res"] = True
         yield case, cfg
@@ -198,7 +200,7 @@ def rule_pairs(ctx, n):
 
 def run(ctx, n_rules=None, n_el=None, compare=True):
     ctx.rule = RULE
-    n_rules = n_rules or ctx.scale(1200, 10000)
+    n_rules = n_rules or ctx.scale(3000, 15000)
     n_el = n_el or ctx.scale(250, 2500)
     # (a) rules: list profile vs multiprofile vs the model on the compressed form
     lines, info = [], []
